@@ -44,9 +44,10 @@ impl Buf {
         if base + s.len > BCAP {
             crate::mfail!("MODEL:buffer capacity");
         }
+        // the bound is the data length: a constant length stops the unwinder early
         let mut i = 0;
-        while i < BCAP {
-            if i < s.len && base + i < BCAP {
+        while i < s.len && i < BCAP {
+            if base + i < BCAP {
                 self.d[base + i] = s.d[i];
             }
             i += 1;
@@ -67,9 +68,13 @@ impl Buf {
         self.len = base + w;
     }
     pub fn eq(&self, o: &Buf) -> bool {
-        let mut same = self.len == o.len;
+        // bytes beyond len are zero (invariant), so comparing the live part suffices
+        if self.len != o.len {
+            return false;
+        }
+        let mut same = true;
         let mut i = 0;
-        while i < BCAP {
+        while i < self.len && i < BCAP {
             if self.d[i] != o.d[i] {
                 same = false;
             }
